@@ -562,4 +562,235 @@ def _run_rest(chk, fx):
                 poly_str(full), [poly_str(x) for x in last], show(strip(env["numBlocks"])), show(strip(env["rest"]))), sd["file"], sd["l"])
     except KeyError as e:
         raise core.AnalysisBroken("sizeOnDiskBinary: local %s vanished" % e)
+    # ---- C07.typesel: C++ element type -> array type tag, in every writer
+    r_ts = chk.rule("C07.typesel", "the writers select the array type from the element type: typeid int -> INTE, float -> REAL, double -> DOUB, bool -> LOGI (anything else MESS), the same in writeBinaryArray and writeFormattedArray", floor=8)
+    WANT_T = {"int": "INTE", "float": "REAL", "double": "DOUB", "bool": "LOGI"}
+    for wname in ("writeBinaryArray", "writeFormattedArray"):
+        ws_ = [f for f in fx.fns if f["n"] == wname and f.get("body") and f["file"].endswith("EclOutput.cpp")]
+        if len(ws_) != 1:
+            raise core.AnalysisBroken("%s: %d definitions" % (wname, len(ws_)))
+        w = ws_[0]
+        got = {}
+        for n in walk(w["body"]):
+            if n["k"] != "If" or not isinstance(n.get("cond"), dict):
+                continue
+            c = strip(n["cond"])
+            if c.get("k") == "OpCall" and c.get("op") == "==" and len(c.get("a") or []) == 2 and all(strip(x).get("k") == "Typeid" for x in c["a"]):
+                ofs = [strip(x).get("of") or "" for x in c["a"]]
+                conc = [o for o in ofs if not re.search(r"\bT\b", o)]
+                if len(conc) != 1:
+                    continue
+                m = re.fullmatch(r"(?:std::)?vector<(\w+)(?:, .*)?>|(\w+)", conc[0].replace("const ", "").strip())
+                el = (m.group(1) or m.group(2)) if m else conc[0]
+                asg = [x for x in stmt_list(n["then"]) if x["k"] == "Bin" and x.get("asg") and x.get("op") == "="]
+                tag = [strip(x["c"][1]).get("n") for x in asg if strip(x["c"][1]).get("d") == "Enum"]
+                got[el] = (tag, n["l"])
+        for el, want in WANT_T.items():
+            key = "%s:%s" % (wname, el)
+            tag, ln = got.get(el, ([], w["l"]))
+            chk.instance(r_ts, key, sample=dict(writer=wname, element=el, tag=tag))
+            if tag != [want]:
+                chk.violation(r_ts, key, "%s tags a vector of %s as %s; the header must say %s (the reader picks element size and conversion from the tag)" % (wname, el, tag or "nothing (MESS)", want), w["file"], ln)
+        init = [v for n in walk(w["body"]) if n["k"] == "Decl" for v in n["vars"] if (v.get("t") or "").endswith("eclArrType")]
+        if len(init) != 1 or strip(init[0].get("init") or {}).get("n") != "MESS":
+            chk.violation(r_ts, wname + ":default", "%s: the array type no longer defaults to MESS before the element type is inspected" % wname, w["file"], w["l"])
+
+    # ---- C07.payload: what lies between the head and the tail marker of a binary block is read
+    r_pl = chk.rule("C07.payload", "readBinaryArray: in every block, between the read of the head marker and the read of the tail marker the payload is read - num elements of the element size into the buffer the values are taken from (per element for strings) - and every element read is appended to the result through the byte-order conversion", floor=2)
+    rb_ = [f for f in fx.fns if f["n"] == "readBinaryArray" and f.get("body") and f["file"].endswith("EclUtil.cpp")]
+    if len(rb_) != 1:
+        raise core.AnalysisBroken("readBinaryArray: %d definitions" % len(rb_))
+    rb_ = rb_[0]
+    loops = [n for n in walk(rb_["body"]) if n["k"] == "While"]
+    if len(loops) != 1:
+        raise core.AnalysisBroken("readBinaryArray: block loop not found")
+    reads = []
+
+    def collect_reads(n, branch):
+        if n["k"] == "If" and n.get("else") is not None and "is_same" in show(n["cond"]):
+            collect_reads(n["then"], "string")
+            collect_reads(n["else"], "numeric")
+            return
+        if n["k"] in ("Call", "MCall") and (n.get("m") or meth(n)[0]) == "read" and n.get("a"):
+            reads.append((n, branch))
+        for ch in __import__("verif.tree", fromlist=["children"]).children(n):
+            collect_reads(ch, branch)
+    collect_reads(loops[0]["body"], "both")
+    marks = [r_ for r_ in reads if r_[1] == "both"]
+    for br in ("numeric", "string"):
+        pay = [r_ for r_ in reads if r_[1] == br]
+        key = "payload:" + br
+        ok = False
+        detail = [show(r_[0])[:90] for r_ in pay]
+        if len(pay) == 1 and len(marks) == 2 and marks[0][0]["l"] < pay[0][0]["l"] < marks[1][0]["l"]:
+            a0, a1 = pay[0][0]["a"][0], pay[0][0]["a"][1]
+            if br == "numeric":
+                # buf.data(), buf.size() * sizeof(T2) with buf declared with num elements
+                bufs = {v["n"]: v for n in walk(loops[0]["body"]) if n["k"] == "Decl" for v in n["vars"] if "vector" in (v.get("t") or "")}
+                b = [x["n"] for x in walk(a0) if x["k"] == "Ref" and x["n"] in bufs]
+                sz = show(decast(a1)).replace(" ", "")
+                if len(b) == 1 and re.fullmatch(r"\(%s\.size\(\)\*sizeof\(T2\)\)|\(sizeof\(T2\)\*%s\.size\(\)\)|\(num\*sizeof\(T2\)\)" % (b[0], b[0]), sz) and "num" in show(bufs[b[0]].get("init")):
+                    used = [fr for fr in walk(loops[0]["body"]) if fr["k"] == "ForRange" and show(strip(fr["range"])) == b[0] and any(meth(x)[0] == "push_back" and "flip(" in show(x) for x in walk(fr["body"]))]
+                    ok = len(used) == 1
+            else:
+                lp = [fr for fr in walk(loops[0]["body"]) if fr["k"] == "For" and any(x is pay[0][0] for x in walk(fr["body"]))]
+                if lp and re.search(r"< num\)", show(lp[0].get("cond"))) and show(decast(a1)) == "sizeOfElement" and any(meth(x)[0] == "push_back" and "flip(" in show(x) for x in walk(lp[0]["body"])):
+                    ok = True
+        chk.instance(r_pl, key, sample=dict(branch=br, payload_reads=detail, markers=len(marks), ok=ok))
+        if not ok:
+            chk.violation(r_pl, key, "readBinaryArray (%s elements): between the head and tail markers the block payload is no longer read as num elements into the buffer whose values are converted and appended (payload reads: %s, marker reads: %d): the array comes back empty, zero-filled or shifted" % (br, detail or "none", len(marks)), rb_["file"], loops[0]["l"])
+
+    # ---- C07.mant: the pieces cut out of the printf rendering follow from the format's precision
+    r_mt = chk.rule("C07.mant", "make_real_string_ecl / make_doub_string_ecl re-arrange the `%W.PE` rendering d.ddd..E+xx into 0.dddd..E+xx: the leading digit is character 0 (1 for negative values), the P fraction digits start at character 2 (3), the exponent text starts at character P+3 (P+4), and the literal returned for zero has P+1 zeros", floor=10)
+    for fname in ("make_real_string_ecl", "make_doub_string_ecl"):
+        fs_ = [f for f in fx.fns if f["n"] == fname and f.get("body")]
+        if len(fs_) != 1:
+            raise core.AnalysisBroken("%s: %d definitions" % (fname, len(fs_)))
+        f = fs_[0]
+        fmts = [strip(c_["a"][2])["v"] for c_ in walk(f["body"]) if c_["k"] == "Call" and (c_.get("fn") or "").endswith("snprintf") and len(c_.get("a") or []) >= 4 and strip(c_["a"][2]).get("k") == "Str" and re.fullmatch(r"%\d+\.\d+E", strip(c_["a"][2])["v"])]
+        if len(fmts) != 1:
+            raise core.AnalysisBroken("%s: the %%W.PE snprintf was not found" % fname)
+        P_ = int(fmts[0].split(".")[1][:-1])
+        pm_ = {}
+        for n in walk(f["body"]):
+            for ch in __import__("verif.tree", fromlist=["children"]).children(n):
+                pm_[id(ch)] = n
+
+        def sign_of(n):
+            """'neg' / 'pos' from the enclosing `value < 0` branch or ?: arm"""
+            child, p_ = n, pm_.get(id(n))
+            while p_ is not None:
+                if p_["k"] in ("If", "Cond"):
+                    cnd = p_["cond"] if p_["k"] == "If" else p_["c"][0]
+                    t = show(decast(cnd)).replace(" ", "")
+                    m = re.fullmatch(r"\((\w+)<0(?:\.0)?\)", t)
+                    if m:
+                        if p_["k"] == "If":
+                            if any(x is child for x in walk(p_["then"])):
+                                return "neg"
+                            if p_.get("else") is not None and any(x is child for x in walk(p_["else"])):
+                                return "pos"
+                        else:
+                            if any(x is child for x in walk(p_["c"][1])):
+                                return "neg"
+                            if any(x is child for x in walk(p_["c"][2])):
+                                return "pos"
+                child, p_ = p_, pm_.get(id(p_))
+            return None
+        seen = {"neg": set(), "pos": set()}
+        for n in walk(f["body"]):
+            m_, o_ = meth(n)
+            if m_ != "substr" or len(n.get("a") or []) != 2:
+                continue
+            a_, b_ = strip(n["a"][0]), strip(n["a"][1])
+            if a_.get("k") != "Int" or b_.get("k") != "Int":
+                continue
+            sg = sign_of(n)
+            if sg is None:
+                raise core.AnalysisBroken("%s:%d substr outside a value < 0 branch" % (fname, n["l"]))
+            s0 = 1 if sg == "neg" else 0
+            a, b = a_["v"], b_["v"]
+            role = "lead" if (a, b) == (s0, 1) else "fraction" if (a, b) == (s0 + 2, P_) else "exponent" if a == s0 + P_ + 3 and b >= 3 else None
+            key = "%s:%s:substr(%d,%d)@%s" % (fname, sg, a, b, role)
+            chk.instance(r_mt, key, sample=dict(function=fname, precision=P_, sign=sg, substr=[a, b], role=role))
+            if role is None:
+                chk.violation(r_mt, key, "%s: for a %s value the `%s` rendering has its leading digit at %d, its %d fraction digits at %d and its exponent at %d; substr(%d, %d) cuts something else: formatted reals lose or duplicate digits" % (fname, "negative" if sg == "neg" else "positive", fmts[0], s0, P_, s0 + 2, s0 + P_ + 3, a, b), f["file"], n["l"])
+            else:
+                seen[sg].add(role)
+        for sg in ("neg", "pos"):
+            miss = {"lead", "fraction", "exponent"} - seen[sg]
+            if miss:
+                chk.violation(r_mt, "%s:%s:roles" % (fname, sg), "%s: for %s values the pieces %s of the `%s` rendering are no longer used" % (fname, "negative" if sg == "neg" else "positive", sorted(miss), fmts[0]), f["file"], f["l"])
+        zero = [strip(x)["v"] for r_ in walk(f["body"]) if r_["k"] == "Return" and r_.get("e") is not None for x in walk(r_["e"]) if x["k"] == "Str" and re.fullmatch(r"0\.0+[ED]\+00", x["v"])]
+        key = "%s:zero" % fname
+        chk.instance(r_mt, key, sample=dict(function=fname, literal=zero))
+        if len(zero) != 1 or zero[0].count("0") != P_ + 1 + 1 + 2:
+            chk.violation(r_mt, key, "%s: the literal returned for zero (%s) does not have %d mantissa zeros like every other value" % (fname, zero, P_ + 1), f["file"], f["l"])
+
+    # ---- C07.fsize: the size of a formatted array as the index builder computes it
+    r_fz = chk.rule("C07.fsize", "sizeOnDiskFormatted (used to skip over formatted arrays when the file index is built): as a symbolic term over num and the block / column / width triple of block_size_data_formatted, the returned size is [num/M full blocks of M*W characters + ceil(M/C) line ends] + (num%M)*W characters + ceil((num%M)/C) line ends - what writeFormattedArray emits; for C0NN the width is elementSize + 3 and the columns 80 / width; the writers read the same triple from the same tuple fields", floor=5)
+    from verif import symb as sy
+    fz = [f for f in fx.fns if f["n"] == "sizeOnDiskFormatted" and f.get("body")]
+    if len(fz) != 1:
+        raise core.AnalysisBroken("sizeOnDiskFormatted: %d definitions" % len(fz))
+    fz = fz[0]
+    if len(fz["params"]) != 3:
+        raise core.AnalysisBroken("sizeOnDiskFormatted: expected (num, type, elementSize)")
+    p_num, p_type, p_es = (p_["n"] for p_ in fz["params"])
+
+    def tuple_field(e):
+        e = strip(e)
+        if e.get("k") == "Call" and (e.get("fn") or "").endswith("std::get") and (e.get("targs") or [None])[0] in ("0", "1", "2") and e.get("a") and strip(e["a"][0]).get("k") == "Ref":
+            return int(e["targs"][0]), strip(e["a"][0])["n"]
+        return None
+
+    def leaf(e):
+        tf = tuple_field(e)
+        if tf:
+            return sy.S("MCW"[tf[0]])
+        if e.get("k") == "Ref" and e.get("d") == "Parm":
+            return sy.S({p_num: "num", p_type: "type", p_es: "elementSize"}.get(e["n"], e["n"]))
+        if e.get("k") == "Ref" and e.get("d") == "Enum":
+            return sy.S(e["n"])
+        return None
+    top_if = [n for n in stmt_list(fz["body"]) if n["k"] == "If" and n.get("else") is not None]
+    rets = [n for n in stmt_list(fz["body"]) if n["k"] == "Return" and n.get("e") is not None]
+    if len(top_if) != 1 or len(rets) != 1 or strip(rets[0]["e"]).get("k") != "Ref":
+        raise core.AnalysisBroken("sizeOnDiskFormatted: the MESS / data split or the single return of a local was not recognised")
+    rv = strip(rets[0]["e"])["n"]
+    locs = {v["n"] for n in walk(fz["body"]) if n["k"] == "Decl" for v in n["vars"] if (v.get("t") or "").replace("std::", "") in ("int", "uint64_t", "int64_t", "const int", "long", "unsigned long")}
+    ev_ = sy.Eval(leaf, locs)
+    mess = show(top_if[0]["cond"]).replace("Opm::EclIO::", "")
+    data_branch = top_if[0]["else"] if re.fullmatch(r"\(\w+ == MESS\)", mess) else top_if[0]["then"] if re.fullmatch(r"\(\w+ != MESS\)", mess) else None
+    if data_branch is None:
+        raise core.AnalysisBroken("sizeOnDiskFormatted: the top-level test is not `type == MESS` (%s)" % mess)
+    env0 = ev_.run([n for n in stmt_list(fz["body"]) if n["k"] == "Decl"], {})
+    got = ev_.run(stmt_list(data_branch), env0).get(rv)
+    N_, M_, C_, W_ = sy.S("num"), sy.S("M"), sy.S("C"), sy.S("W")
+    nb, last = sy.div(N_, M_), sy.mod(N_, M_)
+    lines_block = sy.cond(sy.gt(sy.mod(M_, C_), sy.I(0)), sy.add(sy.div(M_, C_), sy.I(1)), sy.div(M_, C_))
+    size1 = sy.cond(sy.gt(nb, sy.I(0)), sy.mul(nb, sy.add(sy.mul(M_, W_), lines_block)), sy.I(0))
+    size2 = sy.add(size1, sy.mul(last, W_), sy.div(last, C_))
+    want_t = sy.cond(sy.gt(sy.mod(last, C_), sy.I(0)), sy.add(size2, sy.I(1)), size2)
+    chk.instance(r_fz, "formula", sample=dict(returned=sy.show_term(got)[:400], matches=got == want_t))
+    if ev_.gave_up or got is None:
+        raise core.AnalysisBroken("sizeOnDiskFormatted: the returned size could not be expressed as a term (loop at line %s)" % ev_.gave_up)
+    if got != want_t:
+        chk.violation(r_fz, "formula", "sizeOnDiskFormatted returns %s; the characters writeFormattedArray emits for num values are %s (M values per block, C per line, W characters each): the index built over a formatted file points into the middle of the following arrays" % (sy.show_term(got), sy.show_term(want_t)), fz["file"], fz["l"])
+    # C0NN override of width and columns
+    ov = {}
+    for n in walk(fz["body"]):
+        if n["k"] == "Bin" and n.get("asg") and n.get("op") == "=" and tuple_field(n["c"][0]):
+            ov[tuple_field(n["c"][0])[0]] = (ev_.term(n["c"][1], {}), n)
+    okc = ov.get(2, (None,))[0] == sy.add(sy.S("elementSize"), sy.I(3)) and ov.get(1, (None,))[0] == sy.div(sy.I(80), sy.S("W")) and 0 not in ov
+    chk.instance(r_fz, "c0nn", sample=dict(width=sy.show_term(ov.get(2, (None,))[0]), columns=sy.show_term(ov.get(1, (None,))[0])))
+    if not okc:
+        chk.violation(r_fz, "c0nn", "sizeOnDiskFormatted: for C0NN strings the column width must be elementSize + 3 (two quotes and a blank) and the columns 80 / width; found width = %s, columns = %s" % (sy.show_term(ov.get(2, (None,))[0]), sy.show_term(ov.get(1, (None,))[0])), fz["file"], fz["l"])
+    # the writers take the same triple from the same fields and use it for the same purpose
+    for wname in ("writeFormattedArray", "writeFormattedCharArray"):
+        for w in [f for f in fx.fns if f["n"] == wname and f.get("body") and f["file"].endswith("EclOutput.cpp")]:
+            fld = {}
+            for n in walk(w["body"]):
+                if n["k"] == "Decl":
+                    for v in n["vars"]:
+                        if isinstance(v.get("init"), dict) and tuple_field(v["init"]) and any(meth(x)[0] is None and x.get("k") == "Call" and (x.get("fn") or "").endswith("block_size_data_formatted") for d2 in walk(w["body"]) if d2["k"] == "Decl" for v2 in d2["vars"] if v2["n"] == tuple_field(v["init"])[1] and isinstance(v2.get("init"), dict) for x in walk(v2["init"])):
+                            fld[tuple_field(v["init"])[0]] = v["n"]
+            if not fld:
+                continue
+            setw = {strip(c_["a"][0]).get("n") for c_ in walk(w["body"]) if c_["k"] == "Call" and (c_.get("fn") or "").endswith("setw") and c_.get("a")}
+            mods = {}
+            for n in walk(w["body"]):
+                if n["k"] == "Bin" and n.get("op") == "%" and strip(n["c"][1]).get("k") == "Ref":
+                    mods.setdefault(strip(n["c"][1])["n"], 0)
+                    mods[strip(n["c"][1])["n"]] += 1
+            key = "writer:%s@%d" % (wname, w["l"])
+            if wname == "writeFormattedArray":
+                okw = set(fld) == {0, 1, 2} and setw <= {fld.get(2)} and bool(setw) and fld.get(1) in mods and fld.get(0) in mods
+            else:
+                # the string writers pad by hand and need only part of the triple: what they read must be used in its role
+                okw = (1 not in fld or fld[1] in mods) and (2 not in fld or fld[2] not in mods) and (0 not in fld or fld[0] != fld.get(1))
+            chk.instance(r_fz, key, sample=dict(writer=wname, block=fld.get(0), columns=fld.get(1), width=fld.get(2), setw=sorted(x for x in setw if x), wraps_on=sorted(mods)))
+            if not okw:
+                chk.violation(r_fz, key, "%s takes (values per block, columns, width) from tuple fields %s and pads with setw(%s), wraps on %s: the triple of block_size_data_formatted is (block, columns, width) in fields 0, 1, 2 and sizeOnDiskFormatted reads it that way" % (wname, fld, sorted(x for x in setw if x), sorted(mods)), w["file"], w["l"])
+
     chk.assumptions += ["tables/ecl_layout.json: published Eclipse file-format constants"]
